@@ -107,6 +107,9 @@ def check(run):
     neg = run.tlc("MC_MsgLog", "MC_MsgLog_nomargin.cfg", allow_violation=True, name="negative-control:Margin=0")
     if "TruncSafe" not in neg.violated:
         raise vlib.Inconclusive("negative control failed: MsgLog with Margin = 0 does not violate TruncSafe")
+    # the log's two counters and the cursor as coded (D28 / D27): faithful with the repaired Append, and the code as it was is the negative control
+    run.model_check("MC_LogOffsets", "MC_LogOffsets.cfg")
+    run.negative_control("MC_LogOffsets", "MC_LogOffsets_unguarded.cfg", "Faithful")
     scheds = []
     plans = [(2, ["first", "batch", "mid", "seg"])] if not thorough else \
             [(3, ["first", "batch", "mid", "seg"]), (2, ["seg", "mid", "trunc1"]), (2, ["trunc1", "mid", "trunc2"])]
